@@ -3,8 +3,10 @@
 
 Mechanism (shaped like the code): a directory is a list of entries in *listing order*; hidden and
 non-file entries are removed, the vendor's file-name pattern is applied (`re.match`, i.e. anchored
-at the start only, `IGNORECASE`), the survivors are stably sorted by the vendor's sort key, one
-reader task per file is submitted to an executor, the tasks complete in an arbitrary order `π`,
+at the start only, `IGNORECASE`), the survivors are stably sorted by the vendor's sort key (Nu: the
+number made of all digits of the stem; LDR: the pair lower-cased sample name, integer line index;
+TOFWERK: `calendar.timegm ∘ time.strptime` of the stamp, `ValueError` when `strptime` rejects it;
+generic: the name), one reader task per file is submitted to an executor, the tasks complete in an arbitrary order `π`,
 the results are gathered future by future in submission order, all lines are cut to the shortest
 one and stacked, all-NaN sample positions / columns are removed (LDR), the laser parameters are
 read, and only then the helper columns are dropped.
